@@ -89,7 +89,28 @@ def identity_member(desc, tier, seed):
                 edits.append(('add-start-node', e7))
         except Exception:
             pass
+    # parallel edges whose keys do not start at 0: a second (incompatibility) edge next to a derivation edge, then the
+    # key-0 edge removed through get_for_adjusted
+    if edges:
+        try:
+            der = [(u_, v_, k_, d_) for u_, v_, k_, d_ in edges if isinstance(u_, NamedNode) and isinstance(v_, NamedNode) and u_ is not v_]
+            if der:
+                u_, v_, k_, d_ = der[0]
+                e8 = g.copy()
+                e8.add_incompatibility_constraint([u_, v_])
+                e8 = e8.get_for_adjusted(removed_edges=[(u_, v_, k_)])
+                edits.append(('parallel-edge-with-gap-in-keys', e8))
+        except Exception:
+            pass
     for name, e in edits:
+        # a copy of the edited graph is equal to it (same hash, same fingerprint)
+        try:
+            ce = e.copy()
+            ctx.check('C18.copy-of-edited-graph-equal', ce == e and hash(ce) == hash(e) and ce.is_same(e), ['graph-api', name, 'copy'],
+                      f'after {name}: a copy of the edited graph is not equal to it (edges {sorted((str(a), str(b_), k2) for a, b_, k2 in e.graph.edges(keys=True))[:6]} '
+                      f'vs {sorted((str(a), str(b_), k2) for a, b_, k2 in ce.graph.edges(keys=True))[:6]})', (desc.label, name, 'copy'))
+        except Exception as ex:  # noqa
+            ctx.check('C18.copy-of-edited-graph-equal', False, ['graph-api', name, 'copy'], f'{type(ex).__name__}: {ex}', (desc.label, name, 'copy'))
         ctx.check('C18.edit-makes-unequal', not (e == g) and not (g == e), ['graph-api', name],
                   f'after {name} the graphs still compare equal', (desc.label, name))
         ctx.check('C18.original-identity-unchanged-by-editing-a-copy', hash(g) == h0 and g.fingerprint() == f0,
@@ -364,4 +385,47 @@ def sup_member(desc, tier, seed):
         else:
             ctx.check('C20.nested-choice-absent', n1 not in rn and n2 not in rn, wit + ['nested'], 'options of an inactive nested choice present', nt + ('nested',))
     ctx.samples.append(dict(desc=desc.label, source_architectures=len(adm)))
+    return ctx.result()
+
+
+def sup_same_name_member(payload, tier, seed):
+    """C20 on hand-built sources whose option nodes share their display name but differ in what identifies them
+    (two design-variable nodes `span` with different bounds, two metric nodes `mass` with different direction /
+    reference): each source architecture has to resolve to the option mapped from the node that was really selected."""
+    from adsg_core.graph.adsg_basic import BasicDSG
+    from adsg_core.graph.adsg_nodes import NamedNode, DesignVariableNode, MetricNode
+    from adsg_core.graph.sup import SupDSG, SupNode, SupSelChoiceOptionMapping
+    kind, order = payload
+    ctx = Ctx(None)
+    if kind == 'dv':
+        opts = [DesignVariableNode('span', bounds=(0., 1.)), DesignVariableNode('span', bounds=(20., 36.))]
+    elif kind == 'dv-discrete':
+        opts = [DesignVariableNode('span', options=['a', 'b']), DesignVariableNode('span', options=['a', 'b', 'c'])]
+    else:
+        opts = [MetricNode('mass', direction=-1), MetricNode('mass', direction=-1, ref=3.)]
+    root, other = NamedNode('root'), NamedNode('other')
+    src = BasicDSG()
+    choice = src.add_selection_choice('C', root, opts + [other])
+    src = src.set_start_nodes({root})
+    sup = SupDSG()
+    sroot = SupNode('sroot')
+    sopts = [SupNode(f's{i}') for i in range(3)]
+    schoice = sup.add_selection_choice('S', sroot, sopts)
+    pairs = list(zip(opts + [other], sopts))
+    if order == 'reversed':
+        pairs = pairs[::-1]
+    sup.add_mapping(schoice, src, SupSelChoiceOptionMapping(choice, dict(pairs)))
+    sup = sup.set_start_nodes({sroot})
+    for i, o in enumerate(opts + [other]):
+        wit = ['sup', f'same-name-{kind}-{order}', i]
+        nt = ('same-name', kind, order, i)
+        try:
+            arch = src.get_for_apply_selection_choice(choice, o)
+            res = sup.resolve(arch)
+            got = [str(n) for n in res.graph.nodes if n in sopts]
+            want = dict(pairs)[o]
+            ctx.check('C20.mapped-option-taken', want in res.graph.nodes and sum(1 for n in sopts if n in res.graph.nodes) == 1, wit,
+                      f'source selected option {i} ({o.str_context()}): expected {want!s}, resolved graph has {got}', nt)
+        except Exception as e:  # noqa
+            ctx.check('C20.resolves', False, wit, f'{type(e).__name__}: {e}', nt)
     return ctx.result()
